@@ -1,0 +1,24 @@
+//go:build verif
+
+package main
+
+import (
+	"fmt"
+	"os"
+)
+
+// With BCL_VERIF_ARGS=1 the tool prints the result of parseArgs and exits,
+// so that the verification harness can observe the argument parser alone.
+func init() {
+	if os.Getenv("BCL_VERIF_ARGS") != "1" {
+		return
+	}
+	a, err := parseArgs(os.Args[1:])
+	if err != nil {
+		fmt.Printf("usage-error\n")
+		os.Exit(0)
+	}
+	fmt.Printf("file=%q disasm=%v trace=%v result=%v stats=%v bdump=%v bload=%v bdumpFile=%q bloadFile=%q help=%v\n",
+		a.file, a.disasm, a.trace, a.result, a.stats, a.bdump, a.bload, a.bdumpFile, a.bloadFile, a.help != nil)
+	os.Exit(0)
+}
